@@ -211,12 +211,41 @@ def doMove (s : St) (ctx ob : Nat) (asName : Name) : St × Bool :=
   | .ok r => ({ s with reg := r, bad := s.bad || dup }, true)
   | .error _ => ({ s with bad := true }, false)
 
+/-- since fix 66cb133: `not isinstance(ob, Module) and not isinstance(ob.parent, Module)` — the name is an alias of a
+member of a class (`meth = C.meth`): the member stays in its class, the import is recorded as an ordinary alias -/
+def notModuleLevel (s : St) (ob : Nat) : Bool :=
+  !isModuleObj s.reg ob &&
+    !(match (getObj s.reg ob).bind (·.parent) with
+      | some par => isModuleObj s.reg par
+      | none => false)
+
+/-- since fix ec6815d: a MODULE is processed before it is moved (`getProcessedModule(ob.fullName())`) -/
+def processBeforeMove (pm : St → Nat → St) (s : St) (ob : Nat) : St :=
+  if isModuleObj s.reg ob then
+    match path s.reg ob with
+    | some p => (getProcessedModule pm s p).1
+    | none => { s with bad := true }
+  else s
+
 /-- `_handleReExport(exports, origin_name, as_name, origin_module)`; the Bool is its result -/
-def handleReExport (s : St) (ctx : Nat) (exports : List Name) (origin asName : Name) (t : Nat) :
+def handleReExport (pm : St → Nat → St) (s : St) (ctx : Nat) (exports : List Name) (origin asName : Name) (t : Nat) :
     St × Bool :=
   if !exports.contains asName then (s, false) else
   match reexportCandidate s origin t with
   | none => (s, false)                                   -- "cannot resolve re-exported name"
+  | some ob =>
+    if moveBlocked s ctx ob then (s, false)
+    else if notModuleLevel s ob then (s, false)
+    else if listedIn s t origin then (s, false)
+    else doMove (processBeforeMove pm s ob) ctx ob asName
+
+/-- HISTORICAL: `_handleReExport` before the fixes ec6815d (a module taken by a star import was moved unprocessed) and
+66cb133 (an alias of a class member moved the member) -/
+def handleReExportOld (s : St) (ctx : Nat) (exports : List Name) (origin asName : Name) (t : Nat) :
+    St × Bool :=
+  if !exports.contains asName then (s, false) else
+  match reexportCandidate s origin t with
+  | none => (s, false)
   | some ob =>
     if moveBlocked s ctx ob then (s, false)
     else if listedIn s t origin then (s, false)
@@ -233,8 +262,8 @@ def starNames (s : St) (t : Nat) : List Name :=
     | none => []
 
 /-- one round of the `for name in names` loop of `_importAll` -/
-def starOne (ctx t : Nat) (exports : List Name) (s : St) (x : Name) : St :=
-  let h := handleReExport s ctx exports x x t
+def starOne (pm : St → Nat → St) (ctx t : Nat) (exports : List Name) (s : St) (x : Name) : St :=
+  let h := handleReExport pm s ctx exports x x t
   if h.2 then h.1 else
   match Names.expandName (envOf h.1) t [x] with
   | none => { h.1 with bad := true }
@@ -270,7 +299,7 @@ def visitImportFrom (pm : St → Nat → St) (mod ctx : Nat) (level : Nat) (modn
     | some t =>
       -- "If we're importing from a package, make sure imported modules are processed"
       let s2 := if isPkgObj r.1.reg t then (getProcessedModule pm r.1 (T ++ [name])).1 else r.1
-      let h := handleReExport s2 ctx (currentExports r.1 ctx) name asn t
+      let h := handleReExport pm s2 ctx (currentExports r.1 ctx) name asn t
       if h.2 then h.1 else setAlias h.1 ctx asn (T ++ [name])
 
 /-- `visit_ImportFrom` / `_importAll` -/
@@ -281,7 +310,7 @@ def visitImportStar (pm : St → Nat → St) (mod ctx : Nat) (level : Nat) (modn
     let r := getProcessedModule pm s T
     match r.2 with
     | none => r.1
-    | some t => (starNames r.1 t).foldl (starOne ctx t (currentExports r.1 ctx)) r.1
+    | some t => (starNames r.1 t).foldl (starOne pm ctx t (currentExports r.1 ctx)) r.1
 
 /-- `_handleModuleVar` / `_handleClassVar` for `name = <const>` -/
 def visitAssign (ctx : Nat) (name : Name) (s : St) : St :=
@@ -295,19 +324,28 @@ def visitAssign (ctx : Nat) (name : Name) (s : St) : St :=
       if !maybeAttribute s ctx name && dhas o.contents name then s
       else if dhas o.contents name then s else addObj s .attribute name ctx
 
+/-- an exception other than `LookupError` escapes `find_object(expandbase)` -/
+def baseCrash (e : Names.Env) (x : Option Path) : Bool :=
+  match x with
+  | some p => Names.findObject e p == .crash
+  | none => false
+
 /-- `visit_ClassDef` up to `pushClass`: the bases are expanded in the enclosing scope, the class
 object is created and entered; its id is `s.reg.objs.length` -/
 def enterClass (ctx : Nat) (name : Name) (bases : List Path) (s : St) : St :=
   let e := envOf s
   let expanded := bases.map (fun b => Names.expandName e ctx b)
+  -- since fix 2487083: `find_object(expandbase)` (`LookupError` → `None`), not `objForFullName`: a base that a
+  -- re-export has moved already is found under its old name
   let objs := expanded.map (fun x => match x with
-    | some p => (match Names.objFor e p with
-      | some o => if isClassObj s.reg o then some o else none
-      | none => none)
+    | some p => (match Names.findObject e p with
+      | .obj o => if isClassObj s.reg o then some o else none
+      | _ => none)
     | none => none)
+  let crash := expanded.any (baseCrash e)
   let s1 := addObj s .cls name ctx
   markBad { s1 with cinfo := s1.cinfo ++ [(s.reg.objs.length, ⟨ctx, bases, expanded, objs⟩)] }
-    (expanded.any Option.isNone)
+    (expanded.any Option.isNone || crash)
 
 mutual
 /-- one statement, visited with `builder.current = ctx` inside module `mod` -/
